@@ -334,3 +334,116 @@ def _terminator(loop: ast.While) -> Optional[str]:
                     if o:
                         return o
     return None
+
+
+# ---- parsing and compiling are part of the evaluation ------------------------------------------------------
+def _front_end_runs(ctx) -> List[Tuple[Func, ast.Call, str]]:
+    """Call sites, outside the front end itself, that run the parser or the compiler on script text:
+    `Parser(..).parse()`, `X.parse()` / `X.compile(..)` on an object built from the Parser / Compiler class."""
+    out = []
+    for f in ctx.tree.funcs:
+        if f.module.name in ("parser", "lexer", "compiler") or f.module.name.startswith("regex"):
+            continue
+        for c in f.own_nodes():
+            if not (isinstance(c, ast.Call) and isinstance(c.func, ast.Attribute) and c.func.attr in ("parse", "compile")):
+                continue
+            recv = c.func.value
+            cls = None
+            if isinstance(recv, ast.Call) and isinstance(recv.func, ast.Name) and recv.func.id in ("Parser", "Compiler"):
+                cls = recv.func.id
+            elif isinstance(recv, ast.Name):
+                for a in f.own_nodes():
+                    if isinstance(a, ast.Assign) and any(isinstance(t, ast.Name) and t.id == recv.id for t in a.targets) and isinstance(a.value, ast.Call) and isinstance(a.value.func, ast.Name) and a.value.func.id in ("Parser", "Compiler"):
+                        cls = a.value.func.id
+            if cls is not None:
+                out.append((f, c, cls))
+    return out
+
+
+def rule_front_end_recursion_converted(ctx, rep, rid: str) -> None:
+    """The parser and the compiler are recursive over the nesting of the source, and the host's stack is finite: a few
+    hundred nested calls end in RecursionError.  Every place that runs them on script text converts that error into
+    a JSError-family refusal."""
+    rep.rule(rid, "every run of the (recursive) parser or compiler on script text sits in a try whose handler for RecursionError (or a broader class) raises a JSError-family error: source nested beyond the host stack is refused, not answered with a host exception", floor=2)
+    from ..util import try_handlers_enclosing
+
+    t = ctx.tree
+    n = 0
+    for f, c, cls in _front_end_runs(ctx):
+        n += 1
+        key = f"{f.qual}:{cls}.{c.func.attr}"
+        ok = None
+        for tr, in_body in try_handlers_enclosing(c, f.node):
+            if not in_body:
+                continue
+            for h in tr.handlers:
+                names = [norm(x) for x in (h.type.elts if isinstance(h.type, ast.Tuple) else [h.type])] if h.type is not None else ["BaseException"]
+                if not any(nm in ("RecursionError", "RuntimeError", "Exception", "BaseException") for nm in names):
+                    continue
+                for s in h.body:
+                    for r in walk_no_nested(s):
+                        if isinstance(r, ast.Raise) and r.exc is not None:
+                            k = (norm(r.exc.func) if isinstance(r.exc, ast.Call) else norm(r.exc)).split(".")[-1]
+                            if "JSError" in t.exc_ancestors(f.module, k):
+                                ok = k
+                if ok:
+                    break
+            if ok:
+                break
+        if ok:
+            rep.ok(rid, key, {"converted_to": ok})
+        else:
+            rep.bad(rid, key, f"{f.qual} runs {cls}.{c.func.attr} on script text outside any handler that turns RecursionError into a JSError: the parser and the compiler recurse once per nesting level (and once per term of a long left-nested sum), so a few hundred nested calls or function expressions leave eval as the host's RecursionError", f"{f.module.rel}:{c.lineno}")
+    if n < 2:
+        raise AnalysisError(f"{rid}: only {n} runs of the parser/compiler found")
+
+
+def rule_parse_polls_deadline(ctx, rep, rid: str) -> None:
+    """The time limit covers the whole evaluation: the token loop of the lexer asks for the deadline at a bounded
+    interval, and every parser built where a limit can be set is given the poll."""
+    rep.rule(rid, "the lexer's token function asks a deadline callback at a bounded interval (a modulo-gated counter incremented by one per token) and raises TimeLimitError when it answers true, and every construction of a Parser outside the front end passes that callback: parsing time counts against the time limit", floor=2)
+    lex = ctx.tree.mod("lexer")
+    ci = lex.classes.get("Lexer")
+    nt = ci.methods.get("next_token") if ci is not None else None
+    if nt is None:
+        raise AnalysisError("Lexer.next_token not found")
+    polls = [c for c in nt.own_nodes() if isinstance(c, ast.Call) and isinstance(c.func, ast.Attribute) and norm(c.func.value) == "self" and not c.args]
+    key = f"{nt.qual}:deadline-poll"
+    good = False
+    for c in polls:
+        g = guards_of(c, nt.node)
+        gates = [norm(t_).replace(" ", "") for t_, pol in g if pol]
+        modulo = [x for x in gates if "%" in x and "==0" in x]
+        raises = any(isinstance(p_, ast.If) and any(c is y for y in ast.walk(p_.test)) and raises_in(p_.body, "TimeLimitError") for p_ in nt.own_nodes())
+        if not (modulo and raises):
+            continue
+        # the counter steps by one per token, unconditionally
+        ctr = None
+        for x in ast.walk(g[0][0]) if g else []:
+            pass
+        for t_, pol in g:
+            for x in ast.walk(t_):
+                if isinstance(x, ast.BinOp) and isinstance(x.op, ast.Mod) and isinstance(x.left, ast.Attribute):
+                    ctr = norm(x.left)
+        steps = [a for a in nt.node.body if isinstance(a, ast.AugAssign) and norm(a.target) == ctr and isinstance(a.op, ast.Add) and isinstance(a.value, ast.Constant) and a.value.value == 1]
+        others = [a for a in nt.own_nodes() if isinstance(a, (ast.Assign, ast.AugAssign)) and ctr in [norm(t2) for t2 in (a.targets if isinstance(a, ast.Assign) else [a.target])] and a not in steps]
+        if ctr and steps and not others:
+            good = True
+    if good:
+        rep.ok(rid, key)
+    else:
+        rep.bad(rid, key, f"{nt.qual} does not ask a deadline callback on a counter that steps by one per token and raise TimeLimitError when it answers true: the time a parse takes (the arrow-function look-ahead re-reads nested parentheses at every level) is outside the time limit", nt.loc)
+    n = 0
+    for f in ctx.tree.funcs:
+        if f.module.name in ("parser", "lexer") or isinstance(f.node, ast.Lambda):
+            continue
+        for c in f.own_nodes():
+            if isinstance(c, ast.Call) and isinstance(c.func, ast.Name) and c.func.id == "Parser" and ctx.cg._class_visible("Parser", f) is not None:
+                n += 1
+                k2 = f"{f.qual}:Parser(..)"
+                if len(c.args) >= 2 or any(kw.arg == "poll" for kw in c.keywords):
+                    rep.ok(rid, k2)
+                else:
+                    rep.bad(rid, k2, f"{f.qual} builds a Parser without the deadline callback: this parse runs outside the time limit", f"{f.module.rel}:{c.lineno}")
+    if n < 1:
+        raise AnalysisError(f"{rid}: no Parser construction found outside the front end")
